@@ -625,6 +625,10 @@ func (s *Store) resolveWritePath(name string) (string, error) {
 		if strings.HasPrefix(rel, "../") || rel == ".." {
 			return "", ErrPathTraversalDisallowed
 		}
+		// write to the path that was checked: an absolute name is used as
+		// given, and its ".." elements resolve differently from their lexical
+		// meaning once an element before them is a symbolic link
+		path = target
 	}
 	if s.DisableOverwrite {
 		if _, err := os.Stat(path); err == nil {
